@@ -265,19 +265,47 @@ theorem timestamp_secs_rt (secs : Int) (h0 : 0 ≤ secs) (h1 : secs ≤ 42949672
   have h3 : ((secs.toNat : Nat) : Int) = secs := by omega
   simp only [Decode.timestamp, hd, bind, Except.bind, pure, Except.pure, h2, if_false, h3]
 
+theorem tdiv_small (a : Int) (h : -1000000 < a) (h2 : a < 0) : Int.tdiv a 1000000 = 0 := by
+  rw [Int.tdiv_eq_ediv]
+  have hs : Int.sign 1000000 = 1 := by decide
+  rw [hs]
+  have hnd : ¬ ((1000000:Int) ∣ a) := by omega
+  have : ¬ (0 ≤ a ∨ (1000000:Int) ∣ a) := by
+    intro h; rcases h with h | h
+    · omega
+    · exact hnd h
+  rw [if_neg this]; omega
+
+/-- truncation toward zero is nonnegative exactly from -1 s (exclusive) on -/
+theorem tdiv_nonneg_iff (a : Int) : 0 ≤ Int.tdiv a 1000000 ↔ -1000000 < a := by
+  by_cases h0 : 0 ≤ a
+  · rw [Int.tdiv_eq_ediv_of_nonneg h0]; omega
+  · by_cases h1 : -1000000 < a
+    · rw [tdiv_small a h1 (by omega)]; omega
+    · rw [Int.tdiv_eq_ediv]
+      have hs : Int.sign 1000000 = 1 := by decide
+      rw [hs]
+      split <;> omega
+
+theorem tdiv_le_ediv_bound (a : Int) (h : -1000000 < a) (h1 : a / 1000000 ≤ 4294967295) :
+    Int.tdiv a 1000000 ≤ 4294967295 := by
+  by_cases h0 : 0 ≤ a
+  · rw [Int.tdiv_eq_ediv_of_nonneg h0]; omega
+  · rw [tdiv_small a h (by omega)]; omega
+
 theorem timestamp_rt (legacy : Bool) (v : PyVal)
     (hv : (∃ m tz, v = .datetime m tz) ∨ (∃ s, v = .structTime s)) (h : Spec.Encodable legacy v) :
     ∃ e, Encode.timestamp v = .ok e ∧ e.length = 8 ∧
       ∀ rest, Decode.timestamp (e ++ rest) = .ok (8, Spec.norm v) := by
   rcases hv with ⟨m, tz, rfl⟩ | ⟨s, rfl⟩
-  · have ⟨h0, h1⟩ : 0 ≤ Spec.instantMicros m tz ∧ Spec.instantMicros m tz / 1000000 ≤ 4294967295 := by
+  · have ⟨h0, h1⟩ : -1000000 < Spec.instantMicros m tz ∧ Spec.instantMicros m tz / 1000000 ≤ 4294967295 := by
       simpa [Spec.Encodable] using h
-    have h00 : 0 ≤ Spec.instantMicros m tz / 1000000 := Int.ediv_nonneg h0 (by omega)
-    obtain ⟨e, hp, hl, hd⟩ := timestamp_secs_rt _ h00 h1
+    have h00 : 0 ≤ Int.tdiv (Spec.instantMicros m tz) 1000000 := (tdiv_nonneg_iff _).mpr h0
+    obtain ⟨e, hp, hl, hd⟩ := timestamp_secs_rt _ h00 (tdiv_le_ediv_bound _ h0 h1)
     refine ⟨e, ?_, hl, fun rest => by rw [hd rest]; simp [Spec.norm]⟩
     have : Encode.timestamp (.datetime m tz) = packU64 (Int.tdiv (Spec.instantMicros m tz) 1000000) := by
       cases tz <;> simp [Encode.timestamp, Spec.instantMicros]
-    rw [this, Int.tdiv_eq_ediv_of_nonneg h0, hp]
+    rw [this, hp]
   · have ⟨h0, h1⟩ : 0 ≤ s ∧ s ≤ 4294967295 := by simpa [Spec.Encodable] using h
     obtain ⟨e, hp, hl, hd⟩ := timestamp_secs_rt s h0 h1
     exact ⟨e, by simpa [Encode.timestamp] using hp, hl, fun rest => by rw [hd rest]; simp [Spec.norm]⟩
@@ -689,8 +717,8 @@ theorem good_of_encodable (legacy : Bool) (v : PyVal) (h : Spec.Encodable legacy
     have h' : -9223372036854775808 ≤ i ∧ i ≤ 9223372036854775807 := by simpa [Spec.Encodable] using h
     exact good_int legacy i h'.1 h'.2
   | .float bits, h =>
-    have h' : bits < 2 ^ 64 ∧ (f32Narrow bits).isSome := by simpa [Spec.Encodable] using h
-    exact good_float legacy bits h'.2
+    have h' : (f32Narrow bits).isSome := by simpa [Spec.Encodable] using h
+    exact good_float legacy bits h'
   | .decimal n c e, h =>
     have h' : Spec.decimalOK n c e := by simpa [Spec.Encodable] using h
     exact good_decimal legacy n c e h'
